@@ -62,7 +62,8 @@ META = {
     "soft_s": {"quick": 45, "thorough": 800},
     "exhaustive": {"quick": False, "thorough": False},
     "require": ["object_lookups", "string_lookups", "positional_checks", "ambiguous_raised", "cached_executions",
-                "name_collisions", "truncated_names", "text_statements", "union_statements", "wrapped_statements", "rows_checked", "star_reorders"],
+                "name_collisions", "truncated_names", "text_statements", "union_statements", "wrapped_statements", "rows_checked", "star_reorders",
+                "compound_wrapped_statements", "star_expand_statements"],
     "assumptions": ["SQLite evaluates integer addition and joins correctly"],
 }
 
@@ -82,6 +83,10 @@ NROWS = 3
 M = 1_000_000
 LABEL_POOL = ["a", "b", "id", "x", "t_a", "u_a", "t_id", LONG[0], LONG[0][:-1] + "z", LONG[1], "lbl1", "lbl2", "my col", "A",
               "a_1", "a_2", "anon_1", "anon_2", "_1", "a__1", "id_1", "t_a_1", "very_1", "param_1", "q.r", 'dq"x', "select"]
+# explicit labels that cannot coincide with a name SQLAlchemy generates (anon_N, x_N, _N): inside a
+# subquery such a coincidence exports two columns under one name - the user's choice, not judged
+# ("A": SQLite resolves identifiers case-insensitively, ``sq."A"`` would find column ``a``)
+SAFE_LABELS = [x for x in LABEL_POOL if not x.startswith("anon") and not x.rsplit("_", 1)[-1].isdigit() and x != "A"]
 ALIAS_POOL = ["t_1", "al", "an_alias_with_a_very_long_name_to_truncate", "u", "anon_1"]
 LABEL_LENGTHS = [None, 6, 10, 30]
 
@@ -111,7 +116,7 @@ class El:
         if self.label is not None:
             s.add(self.label)
         # a unary minus over a column is named by (and registered in the result map through) that column
-        if self.src is not None and self.nk in ("col", "label", "cast", "tcoerce", "neg"):
+        if self.src is not None and self.src.name is not None and self.nk in ("col", "label", "cast", "tcoerce", "neg"):
             s.add(self.src.name)
             if self.src.tname:
                 s.add(f"{self.src.tname}_{self.src.name}")
@@ -209,7 +214,7 @@ class Gen:
         ls = r.choice([None, sa.LABEL_STYLE_NONE, sa.LABEL_STYLE_TABLENAME_PLUS_COL, sa.LABEL_STYLE_DISAMBIGUATE_ONLY])
         return (stmt if ls is None else stmt.set_label_style(ls)), ("default" if ls is None else ls.name)
 
-    def plain(self, K0=0, n=None, unique_names=False):
+    def plain(self, K0=0, n=None, unique_names=False, kinds=None, label_names=None):
         """a SELECT over joined tables: returns (stmt, elements, decode)"""
         sa, r = self.sa, self.r
         srcs, frm = self.sources(r.choice([1, 2, 2, 3]))
@@ -224,7 +229,7 @@ class Gen:
                 els.append(e)
         else:
             for i in range(1, n):
-                els.append(self.element(pool, i, els))
+                els.append(self.element(pool, i, els, kinds=kinds, **({"label_names": label_names} if label_names else {})))
         stmt = sa.select(*[e.obj for e in els]).select_from(frm)
         id_code = None
         for tb, ti, off, cols in srcs[:1]:
@@ -275,6 +280,78 @@ class Gen:
             els.append(self.element(pool, i, els))
         stmt = sa.select(*[e.obj for e in els]).select_from(frm)
         return stmt, els, decode
+
+    def compound_wrapped(self):
+        """union / union_all / intersect / except whose members carry an explicit label style (NONE
+        included) over joined tables with colliding column names, used through .subquery() / .alias() /
+        .cte() and selected from"""
+        sa, r = self.sa, self.r
+        op = r.choice(["union_all", "union_all", "union", "intersect", "except"])
+        ls = r.choice([None, sa.LABEL_STYLE_NONE, sa.LABEL_STYLE_NONE, sa.LABEL_STYLE_TABLENAME_PLUS_COL, sa.LABEL_STYLE_DISAMBIGUATE_ONLY])
+        n = r.choice([3, 4, 6])
+        kinds = ["col", "col", "col", "col", "label", "expr", "exprlabel"]
+        branches = []
+        for b in range(r.choice([2, 2, 3]) if op.startswith("union") else 1):
+            stmt, els, decode, _ = self.plain(K0=(b + 1) * 100_000, n=n, kinds=kinds, label_names=SAFE_LABELS)
+            if ls is not None:
+                stmt = stmt.set_label_style(ls)
+            branches.append((stmt, els, decode))
+        b0 = branches[0][0]
+        if op == "union_all":
+            comp = sa.union_all(*[b[0] for b in branches])
+        elif op == "union":
+            comp = sa.union(*[b[0] for b in branches])
+        elif op == "intersect":
+            comp = sa.intersect(b0, b0)
+        else:
+            comp = sa.except_(b0, b0.where(sa.false()))
+        wrapper = r.choice(["subquery", "subquery", "alias", "cte"])
+        nm = r.choice(["cw", "anon_1", "a_compound_with_a_long_name_exceeding_thirty_chars"])
+        sub = comp.cte(nm) if wrapper == "cte" else comp.alias(nm) if wrapper == "alias" else comp.subquery(nm)
+        subcols = list(sub.c)
+        first_objs = [id(e.obj) for e in branches[0][1]]
+        info = {"op": op, "wrapper": wrapper, "member_style": "default" if ls is None else ls.name,
+                # the first member selects one column object twice: its two positions are exported as ONE column
+                "first_member_repeats_column": len(set(first_objs)) < len(first_objs)}
+        if len(subcols) != n:
+            return None, None, None, dict(info, exported=len(subcols), expected=n)
+        decoders = []
+        for _, bels, decode in branches:
+            # (an exported column whose name is still an unresolved anonymous label has no string name here)
+            outer = [El(c, "col", e.exp, None, SrcCol(c, e.exp, None if "%(" in str(c.name) else str(c.name), nm, (nm, j)))
+                     for j, (c, e) in enumerate(zip(subcols, bels))]
+            decoders.append((decode, outer))
+        stmt = sa.select(*subcols)
+        return stmt, decoders[0][1], decoders, info
+
+    def star_expand(self):
+        """a select whose last column is a textual / literal column that expands into SEVERAL result
+        columns (``alias.*`` or ``text("alias.c1, alias.c2, ...")``): cursor.description is longer than
+        the compiled columns and is matched to them by name"""
+        sa, r = self.sa, self.r
+        srcs, frm = self.sources(r.choice([2, 2, 3]))
+        pool = [sc for _, _, _, cols in srcs for sc in cols]
+        els = [self.marker(srcs[0][3][0], 0)]
+        if r.random() < 0.5:
+            # equally named columns of two sources, as plain columns
+            cn = r.choice(["id", "a", "b", "x"])
+            for _, _, _, cols in r.sample(srcs, 2):
+                sc = next(x for x in cols if x.name == cn)
+                els.append(El(sc.obj, "col", sc.exp, None, sc))
+        for i in range(len(els), r.choice([2, 3, 4])):
+            els.append(self.element(pool, i, els, kinds=["col", "col", "col", "label", "expr"]))
+        tb, ti, off, cols = srcs[r.randrange(len(srcs))]
+        nm = cols[0].tname
+        if r.random() < 0.5:
+            expander, form = sa.literal_column('"%s".*' % nm), "star"
+        else:
+            # any subset of the source's columns, in any order
+            cols = r.sample(cols, r.randint(1, len(cols)))
+            expander, form = sa.text(", ".join('"%s"."%s"' % (nm, sc.name) for sc in cols)), "text"
+        stmt = sa.select(*[e.obj for e in els], expander).select_from(frm)
+        expanded = [El(None, "expanded", sc.exp, None, sc) for sc in cols]
+        decode = lambda v, c=code(srcs[0][1], 0): v - c * M
+        return stmt, els, expanded, decode, form
 
     def union(self):
         sa, r = self.sa, self.r
@@ -414,7 +491,9 @@ def check_rows(ctx, sa, rows, keys, els, decoders, extra_objs, desc, cached, tex
             if raised is None:
                 # the names result.keys() advertises take precedence over secondary names
                 # (<table>_<col> labels, column names behind labels) of other columns
-                allowed = keypos if keypos else carriers
+                # (positions whose exported name is an unresolved anonymous label have names the harness does
+                # not know: they may carry any string that result.keys() does not list)
+                allowed = keypos if keypos else carriers + [j for j in range(n) if els[j].src is not None and els[j].src.name is None]
                 if not any(want[j] == got for j in allowed):
                     where = [j for j in range(n) if want[j] == got]
                     kinds = sorted({els[j].kind for j in allowed})
@@ -450,6 +529,23 @@ def check_rows(ctx, sa, rows, keys, els, decoders, extra_objs, desc, cached, tex
                     ctx.violation("getattr-disagrees-with-mapping", f"{tag}: row.{s} -> {graised or ga} vs _mapping -> {raised or got}", dict(desc, key=s))
 
 
+class _Remap:
+    """reporting context that files every violation of one case under one root-cause mechanism"""
+
+    def __init__(self, ctx, mechanism):
+        self._ctx, self._mech = ctx, mechanism
+
+    def __getattr__(self, name):
+        return getattr(self._ctx, name)
+
+    def violation(self, mechanism, summary, witness=None):
+        self._ctx.violation(self._mech, f"[{mechanism}] {summary}", witness)
+
+
+def json_key(d):
+    return ",".join(f"{k}={d[k]}" for k in sorted(d))
+
+
 def setup_engine(sa, tables, md, label_length):
     from sqlalchemy.pool import StaticPool
 
@@ -474,6 +570,14 @@ def build(sa, tables, seed, how):
         stmt, els, decode = g.whole_tables()
         stmt, out["style"] = g.style(stmt)
         out.update(stmt=stmt, els=els, decoders=[(decode, els)])
+    elif how == "compound_wrapped":
+        stmt, els, decoders, info = g.compound_wrapped()
+        out["info"] = info
+        if stmt is None:
+            out.update(stmt=None)
+        else:
+            stmt, out["style"] = g.style(stmt)
+            out.update(stmt=stmt, els=els, decoders=decoders)
     elif how == "union":
         un, branches = g.union()
         out.update(stmt=un, els=branches[0][1], decoders=[(d, e) for _, e, d in branches], style="union")
@@ -530,6 +634,82 @@ def to_text(sa, built, eng, rng):
     built["decoders"] = [(built["decoders"][0][0], new)]
     built.update(stmt=ts, els=new, textual=True, how=how, extra=[])
     return built
+
+
+def star_expand_case(ctx, sa, tables, eng, seed, ll):
+    """judge one star-expanding select: positions by generator-known values; compiled element objects and
+    every cursor name looked up on every row"""
+    import random
+
+    exc = sa.exc
+    g = Gen(sa, tables, random.Random(seed))
+    stmt, els, expanded, decode, form = g.star_expand()
+    stmt, style = g.style(stmt)
+    with eng.connect() as conn:
+        res = conn.execute(stmt)
+        keys = list(res.keys())
+        rows = res.all()
+    ctx.count("star_expand_statements")
+    allels = els + expanded
+    desc = {"how": "star_expand:" + form, "seed": seed, "label_length": ll, "style": style, "keys": keys,
+            "sql": str(stmt.compile(dialect=eng.dialect))[:600]}
+    if len(keys) != len(allels):
+        ctx.violation("star-expand-column-count", f"{len(keys)} result columns, expected {len(allels)}", desc)
+        return
+    # the "duplicate keys" scan of CursorResultMetaData only runs when the number of distinct names differs
+    # from the number of compiled columns; here it happens to be equal although names repeat
+    gate = ":distinct-names-equal-compiled-columns" if len(set(keys)) == len(els) + 1 and len(set(keys)) < len(keys) else ""
+    for row in rows:
+        ctx.count("rows_checked")
+        tup = tuple(row)
+        base = decode(tup[0])
+        want = [e.exp(base) for e in allels]
+        if list(tup) != want:
+            bad = [i for i in range(len(want)) if tup[i] != want[i]][:4]
+            ctx.violation("positional-value-wrong:star-expand", f"positions {bad}: {[tup[i] for i in bad]} expected {[want[i] for i in bad]}", desc)
+            return
+        m = row._mapping
+        for i, e in enumerate(els):
+            ctx.count("object_lookups")
+            # cursor positions that share this element's result name
+            mine = e.names() | {keys[i]}
+            same = [j for j in range(len(keys)) if keys[j] in mine]
+            try:
+                got = m[e.obj]
+            except exc.InvalidRequestError:
+                ctx.count("ambiguous_raised")
+                if len(same) < 2:
+                    ctx.violation("object-key-ambiguous:star-expand:" + e.kind, f"element {i} ({keys[i]!r}) raised ambiguous but its name is unique", desc)
+                continue
+            except exc.NoSuchColumnError:
+                ctx.violation("object-key-not-found:star-expand:" + e.kind, f"element {i} ({keys[i]!r}) cannot be looked up", desc)
+                continue
+            if got != want[i]:
+                where = [j for j in range(len(want)) if want[j] == got]
+                ctx.violation("dupe-scan-skipped" + gate if gate else "object-key-wrong-value:star-expand:" + e.kind,
+                              f"_mapping[{e.kind} at {i} ({keys[i]!r})] returned {got} = value of position {where}, expected {want[i]}", dict(desc, position=i))
+        for s in sorted(set(keys)):
+            ctx.count("string_lookups")
+            pos = [j for j in range(len(keys)) if keys[j] == s]
+            vals = {want[j] for j in pos}
+            try:
+                got = m[s]
+            except exc.InvalidRequestError:
+                ctx.count("ambiguous_raised")
+                # (a cursor name that is also a secondary name - <table>_<col> - of a compiled column is
+                # ambiguous by design)
+                if len(pos) < 2 and not any(s in e.names() and keys[i] != s for i, e in enumerate(els)):
+                    ctx.violation("unambiguous-string-key-raised:star-expand", f"{s!r} is listed once by keys() but raised ambiguous", dict(desc, key=s))
+                continue
+            except exc.NoSuchColumnError:
+                ctx.violation("string-key-not-found:star-expand", f"{s!r} from keys() cannot be looked up", dict(desc, key=s))
+                continue
+            if got not in vals:
+                ctx.violation("string-key-foreign-value:star-expand", f"_mapping[{s!r}] returned {got}, positions {pos} hold {sorted(vals)}", dict(desc, key=s))
+            elif len(vals) >= 2:
+                ctx.violation("dupe-scan-skipped" + gate if gate else "ambiguous-string-key-returned-value:star-expand",
+                              f"keys() lists {s!r} at {pos} with different values {sorted(vals)} but lookup returned {got}", dict(desc, key=s))
+    ctx.case({"star_expand": seed, "ll": ll}, nontrivial=len(set(keys)) < len(keys))
 
 
 STAR_NAMES = ["a", "b", "id", "x", "t_id", LONG[0], LONG[1], "my col", "A1"]
@@ -595,7 +775,8 @@ def run(ctx):
     tables = [sa.Table(nm, md, *[sa.Column(cn, sa.Integer) for _, cn in table_cols(ti)]) for ti, nm in enumerate(TABLES)]
     engines = [(ll, setup_engine(sa, tables, md, ll)) for ll in LABEL_LENGTHS]
     rng = ctx.rng
-    hows = ["plain", "plain", "tables", "subquery", "cte", "union", "text_pos", "text_name", "text_plain", "plain"]
+    hows = ["plain", "plain", "tables", "subquery", "cte", "union", "text_pos", "text_name", "text_plain", "plain",
+            "compound_wrapped", "star_expand", "compound_wrapped"]
     ncases = ctx.pick({"quick": 50, "thorough": 1000})
     try:
         for k in range(ncases):
@@ -606,13 +787,32 @@ def run(ctx):
             ll, eng = engines[k % len(engines)] if k < 40 else rng.choice(engines)
             if k % 5 == 0:
                 star_case(ctx, sa, eng, rng, k)
+            if how == "star_expand":
+                star_expand_case(ctx, sa, tables, eng, seed, ll)
+                continue
             tseed = rng.randrange(1 << 40)
             nontriv = False
             for rnd in range(2):
                 import random
 
-                built = build(sa, tables, seed, "plain" if how.startswith("text") else how)
+                try:
+                    built = build(sa, tables, seed, "plain" if how.startswith("text") else how)
+                except sa.exc.InvalidRequestError:
+                    if how != "compound_wrapped":
+                        raise
+                    # "Label name x is being renamed to an anonymous label due to disambiguation which is not
+                    # supported right now": documented refusal of subquery() for explicit duplicate labels
+                    ctx.count("compound_wrap_refused")
+                    break
                 built["how"] = how
+                if how == "compound_wrapped":
+                    if rnd == 0:
+                        ctx.count("compound_wrapped_statements")
+                        ctx.seen("compound_forms", json_key(built["info"]))
+                    if built["stmt"] is None:
+                        ctx.violation("wrapper-exports-wrong-column-count:" + built["info"]["wrapper"],
+                                      f"{built['info']}", {"seed": seed, "info": built["info"]})
+                        break
                 if how.startswith("text"):
                     built = to_text(sa, built, eng, random.Random(tseed))
                     ctx.count("text_statements")
@@ -621,8 +821,23 @@ def run(ctx):
                 elif how in ("subquery", "cte"):
                     ctx.count("wrapped_statements")
                 els = built["els"]
-                desc = {"seed": seed, "how": built["how"], "label_length": ll, "style": built.get("style"), "round": rnd,
-                        "sql": str(built["stmt"].compile(dialect=eng.dialect))[:700]}
+                vctx = ctx
+                if how == "compound_wrapped":
+                    info = built["info"]
+                    remap = ("compound-first-member-repeats-column" if info["first_member_repeats_column"] else
+                             "cte-none-style-duplicate-names" if info["wrapper"] == "cte" and info["member_style"] == "LABEL_STYLE_NONE" else None)
+                    if remap:
+                        vctx = _Remap(ctx, remap)
+                try:
+                    desc = {"seed": seed, "how": built["how"], "label_length": ll, "style": built.get("style"), "round": rnd,
+                            "sql": str(built["stmt"].compile(dialect=eng.dialect))[:700]}
+                except sa.exc.InvalidRequestError:
+                    if how != "compound_wrapped":
+                        raise
+                    ctx.count("compound_wrap_refused")
+                    break
+                if how == "compound_wrapped":
+                    desc["info"] = built["info"]
                 with eng.connect() as conn:
                     n0 = len(eng._compiled_cache)
                     res = conn.execute(built["stmt"])
@@ -636,7 +851,7 @@ def run(ctx):
                     pk = pk if len(pk) == len(els) else None
                 except Exception:
                     pk = None
-                check_rows(ctx, sa, rows, keys, els, built["decoders"], built["extra"], desc, cached=(rnd == 1 and hit), textual=built["textual"], proxy_keys=pk)
+                check_rows(vctx, sa, rows, keys, els, built["decoders"], built["extra"], desc, cached=(rnd == 1 and hit), textual=built["textual"], proxy_keys=pk)
                 if rnd == 0:
                     names = [kk for kk in keys]
                     allnames = [nm for i, e in enumerate(els) for nm in canon_names(e, keys[i])]
